@@ -148,24 +148,27 @@ impl Peer {
 
     pub fn handle_have(
         &mut self,
-        piece_index: usize,
+        chosen_index: Option<usize>,
         pieces_status: &mut Vec<Status>,
         metainfo: &Metainfo,
     ) -> HaveCmd {
-        self.pieces[piece_index] = true;
-
-        if pieces_status[piece_index] == Status::Missing && !self.am_interested {
-            if !self.choked && self.piece_index.is_none() {
-                pieces_status[piece_index] = Status::Reserved(1);
-                self.piece_index = Some(piece_index);
-                self.am_interested = true;
-                HaveCmd::SendInterestedAndRequest(req_data(metainfo, piece_index))
-            } else {
-                self.am_interested = true;
-                HaveCmd::SendInterested
+        match chosen_index {
+            Some(chosen_index) if !self.am_interested => {
+                if !self.choked && self.piece_index.is_none() {
+                    pieces_status[chosen_index] = match pieces_status[chosen_index] {
+                        Status::Reserved(peers_count) => Status::Reserved(peers_count + 1),
+                        Status::Missing => Status::Reserved(1),
+                        Status::Have => Status::Have,
+                    };
+                    self.piece_index = Some(chosen_index);
+                    self.am_interested = true;
+                    HaveCmd::SendInterestedAndRequest(req_data(metainfo, chosen_index))
+                } else {
+                    self.am_interested = true;
+                    HaveCmd::SendInterested
+                }
             }
-        } else {
-            HaveCmd::Ignore
+            _ => HaveCmd::Ignore,
         }
     }
 
